@@ -1,4 +1,5 @@
 """Hypothesis strategies producing JSON cases: texts, setting specs, index arguments, value programs."""
+import os
 from hypothesis import strategies as st
 
 ASCII = list('abAB \t\n-:+01x')
@@ -394,4 +395,7 @@ def small_scopes(tier):
     scopes = [(['red', 'blue', 'bold'], 2, 'abc'), (['red', 'blue'], 3, 'ab' if tier == 'quick' else 'abc')]
     if tier != 'quick':
         scopes.append((['red', 'blue'], 4, 'ab'))   # 70 000 four-step histories (e.g. insert below, remove, apply across, remove)
+    if os.environ.get('VERIF_SMALL_EXTRA'):
+        # optional, not part of any registered command: five-step histories (1.3 million values; minutes per property)
+        scopes = [(['red', 'blue'], 5, 'ab')]
     return scopes
